@@ -18,7 +18,7 @@ EXPLANATION = (
     "the cap by the very Irr that is returned. C13.c (index spaces): Schedule is built on ClockStruct.time_span and read "
     "at the time-step counter; SMT is read at int(growth_stage)-1 and growth_stage is set to 1 on the first day of a "
     "season before it is used. C13.d: each strategy's parameter is read only inside that strategy's branch. C13.e: the daily schedule is aligned with the simulation days by label; a day offset used as an array position "
-    "must be checked against 0 and the length (negative offsets wrap). C13.f: the interval day test is (dap - 1) % interval == 0 (normal form). C13.g: the net-irrigation refill uses each layer's own threshold (= C04.e). C13.h: the growth-stage lengths of compute_crop_calendar are derived by the same expressions in the calendar-day and the degree-day branch (modulo the CD suffix) and the degree-day branch reads no calendar-day parameter - the end of stage 1 selects the threshold of the soil-moisture strategy. NOT decided: "
+    "must be checked against 0 and the length (negative offsets wrap). C13.f: the interval day test is (dap - 1) % interval == 0 (normal form). C13.g: the net-irrigation refill uses each layer's own threshold (= C04.e). C13.h: the growth-stage lengths of compute_crop_calendar are derived by the same expressions in the calendar-day and the degree-day branch (modulo the CD suffix) and the degree-day branch reads no calendar-day parameter - the end of stage 1 selects the threshold of the soil-moisture strategy. C13.i: the daily schedule array is built from the schedule's Depth column by name (or zeros). NOT decided: "
     "the ((dap-1) % k), the threshold comparison and the refill amount (numeric).")
 
 
@@ -132,6 +132,49 @@ def rule_f(chk, prog):
                 chk.violation("C13.f", where, construct, f"the interval test is on {A.text(left)[:60]} % {norm(c.left.right)} {'== 0' if zero else norm(c.comparators[0])}, "
                               f"not on ({f_dap} - 1) % {f_int} == 0: irrigation does not fall on days 1, 1+k, 1+2k after planting", loc=fi.loc(c))
     chk.floor("C13.f", n, 1, "interval day tests in irrigation()")
+
+
+def rule_i(chk, prog):
+    """C13.i (scheduled irrigation applies exactly the scheduled depth): the daily schedule array handed to the model is built from the
+    schedule's `Depth` column selected by name (or is all zeros) - not from `.values` of whatever columns remain after dropping the date:
+    one more column in the user's table interleaves with the depths, which then land on other days."""
+    from ..rdef import flow_of, ENTRY
+    fi = prog.find_func("read_irrigation_management")
+    chk.fn(fi.key)
+    where = f"{fi.module}:{fi.qualname}"
+    flow = flow_of(fi)
+    cfg = flow.cfg
+    n = 0
+    for a in walk_no_nested(fi.node):
+        if isinstance(a, ast.Assign) and isinstance(a.targets[0], ast.Attribute) and a.targets[0].attr == "Schedule" and isinstance(a.value, ast.Name):
+            nid = flow.stmt_node.get(id(a))
+            for d in flow.defs_reaching(a.value.id, nid):
+                da = cfg.nodes[d].ast if d != ENTRY else None
+                v = da.value if isinstance(da, ast.Assign) else None
+                if v is None:
+                    continue
+                n += 1
+                construct = norm(da)[:90]
+                zeros = isinstance(v, ast.Call) and norm(v.func) in ("np.zeros", "numpy.zeros")
+                by_name = any((isinstance(x, ast.Subscript) and isinstance(x.slice, ast.Constant) and x.slice.value == "Depth") or (isinstance(x, ast.Attribute) and x.attr == "Depth")
+                              for x in ast.walk(v))
+                # `.values` of a frame the model built itself with the single column 'Depth'
+                own_single = False
+                for x in ast.walk(v):
+                    if isinstance(x, ast.Attribute) and x.attr == "values" and isinstance(x.value, ast.Name):
+                        for dd in flow.defs_reaching(x.value.id, d):
+                            fa = cfg.nodes[dd].ast if dd != ENTRY else None
+                            fv = fa.value if isinstance(fa, ast.Assign) else None
+                            if isinstance(fv, ast.Call) and norm(fv.func) in ("pd.DataFrame", "pandas.DataFrame", "DataFrame"):
+                                cols = next((k.value for k in fv.keywords if k.arg == "columns"), None)
+                                if isinstance(cols, ast.List) and [getattr(e, "value", None) for e in cols.elts] == ["Depth"]:
+                                    own_single = True
+                if zeros or by_name or own_single:
+                    chk.ok("C13.i", where, construct, "all zeros" if zeros else ("the Depth column, by name" if by_name else "a frame the model built with the single column 'Depth'"))
+                else:
+                    chk.violation("C13.i", where, construct, "the daily schedule is built from all remaining columns of the user's table, not from its Depth column: an extra "
+                                  "column is interleaved with the depths and irrigation is applied on the wrong days", loc=fi.loc(da))
+    chk.floor("C13.i", n, 2, "definitions of the daily schedule array")
 
 
 def rule_h(chk, prog):
@@ -397,6 +440,7 @@ def run(chk, prog, tier):
     from .c03 import rule_d as own_thresholds
     own_thresholds(chk, prog, rule="C13.g", only={"transpiration"}, floor=1)
     rule_h(chk, prog)
+    rule_i(chk, prog)
     chk.exhaustive = True
 
 
